@@ -165,6 +165,7 @@ class Interp:
         self.dtype_hazards = []      # stores of real values into buffers typed like a caller's container
         self.replace_hazards = []    # (node, old, field, remaining count): str.replace may reach into user text
         self.generic_point = False   # decide == of non-identical symbolic numbers as False (generic values)
+        self.underflow_hazards = []  # (node, file, factor): np.log of a product over a vector of unknown length
         self.real_checked = set()    # root atoms that went through np.isreal
         self.re_hazards = []         # (node, pattern, field, what, spelling): regex outcome depends on user text
         from .absre import NumPolicy
@@ -2207,7 +2208,15 @@ def _np_unary(fname):
         v = _arg(args, kwargs, 0, 'x')
         D = I.D
         if fname == 'log':
-            return I.unary_fn(D.ln, v)
+            r = I.unary_fn(D.ln, v)
+            if isinstance(r, Rat):
+                from .nf import LNPROD
+                for a_ in r.atoms():
+                    if a_ in LNPROD:
+                        # logarithm of a product over a vector of unknown length: in floating point the product
+                        # is formed first (the rule decides whether its factors can make it underflow)
+                        I.underflow_hazards.append((n, fr.module.relpath, D.arg[a_[3:-1]]))
+            return r
         if fname == 'exp':
             return I.unary_fn(D.exp, v)
         if fname == 'sqrt':
